@@ -28,6 +28,10 @@ func checkC12(r *Report, p *Program) {
 	toleranceScope(r, p, "R12.9")
 	r12_10(r, p)
 	errorChecksMeanWhatTheySay(r, p, "R12.11")
+	// a worker never blocks for good: no leaked lock
+	locksReleased(r, p, "R12.12", 10)
+	oneWritePerChild(r, p, "R12.13")
+	resultKeptOnSuccess(r, p, "R12.14", 1)
 }
 
 func allowedFor(s engine.Sink, under map[*ssa.Function]bool, releasers map[*ssa.Function]bool) []string {
